@@ -92,6 +92,8 @@ func init() {
 		{"C16", "C16/json-name-conflicts", "C04/json-name-conflicts", func(c *Ctx) { ruleJSONNameConflicts(c, "C04/json-name-conflicts") }},
 		{"C04", "C04/skip-by-index-prefix", "C16/skip-by-index-prefix", ruleC16SkipPrefix}, // promoted fields of a hidden embedded struct must not become properties
 		{"C09", "C09/skip-by-index-prefix", "C16/skip-by-index-prefix", ruleC16SkipPrefix},
+		{"C03", "C03/escape-tables", "C17/escape-tables", ruleC17Escape}, // a pointer fragment that is unescaped differently reaches another member
+		{"C14", "C14/monotone", "C07/monotone", ruleC07Monotone},        // a merge in which the last record wins makes the verdict depend on the order of a map iteration
 		{"C13", "C13/root-provenance", "C02/root-provenance", ruleC02RootProvenance}, // the one write Resolve makes into a caller's schema: only to fill in a missing $schema
 	} {
 		sh := sh
